@@ -52,6 +52,23 @@ func init() {
 	}
 }
 
+// ZT shares field names with ZS but has another layout
+type ZT struct {
+	ID    string
+	Count int
+	Name  string
+}
+
+func init() {
+	extraBuilders["zt"] = func(v Val) any {
+		t := ZT{ID: v.E[0].Str(), Name: v.E[1].Str(), Count: int(v.E[2].I)}
+		if v.T == "ptr" {
+			return &t
+		}
+		return t
+	}
+}
+
 var c08Funcs = map[string]any{
 	"add2":    func(a int, b int) int { return a + b },
 	"cat":     func(xs ...string) string { return strings.Join(xs, "+") },
@@ -345,6 +362,13 @@ func c08Resolve(cs *c08Case) c08Out {
 				} else {
 					present = false
 				}
+			case "zt":
+				idx := map[string]int{"ID": 0, "Name": 1, "Count": 2}
+				if j, ok := idx[name]; ok {
+					next = cur.E[j]
+				} else {
+					present = false
+				}
 			case "mapSA", "mapSI", "mapSS":
 				if v, ok := cur.Lookup(name); ok {
 					next = v
@@ -436,7 +460,7 @@ func c08Len(v Val) (int, bool) {
 		return len(v.E), true
 	case strings.HasPrefix(v.K, "map"):
 		return len(v.Ks), true
-	case v.K == "nil", v.IsIntKind(), v.K == "bool", v.IsFloatKind(), v.K == "zs", v.K == "zinner":
+	case v.K == "nil", v.IsIntKind(), v.K == "bool", v.IsFloatKind(), v.K == "zs", v.K == "zinner", v.K == "zt":
 		return 0, true
 	}
 	return 0, false
@@ -758,6 +782,9 @@ func TestC08Shadowing(t *testing.T) {
 		{`{% set v = "set" %}{{ v }}`, "set"},
 		{`{% macro m(v) %}{{ v }}{% endmacro %}{{ m("arg") }}|{{ v }}`, "arg|context"},
 		{`{% with only_global="w" %}{{ only_global }}{% endwith %}{{ only_global }}`, "wG"},
+		// a tag binding shadows the context also when it binds nothing (omitted macro parameter, nil argument)
+		{`{% macro m(v) %}[{{ v }}]{% endmacro %}{{ m() }}|{{ m(nothing) }}|{{ v }}`, "[]|[]|context"},
+		{`{% macro m(only_global, v="d") %}[{{ only_global }}{{ v }}]{% endmacro %}{{ m() }}`, "[d]"},
 	}
 	for _, c := range cases {
 		tpl, err := set.FromString(c.src)
@@ -771,3 +798,114 @@ func TestC08Shadowing(t *testing.T) {
 		}
 	}
 }
+
+// ---- C08.hetero: one parsed path, applied to values of different Go types in one render ------
+
+type c08Hetero struct {
+	Elems []Val     `json:"elems"`
+	Steps []c08Step `json:"steps"`
+	Reps  int       `json:"reps"`
+}
+
+func checkC08Hetero(c any, r *Rec) error {
+	cs := c.(*c08Hetero)
+	ctx := ctxVal("hetero", Val{K: "anys", E: cs.Elems}, "s", vStr("str"), "i", vInt(1))
+	var want strings.Builder
+	expectErr := false
+	for rep := 0; rep < cs.Reps; rep++ {
+		for _, e := range cs.Elems {
+			one := &c08Case{Ctx: ctxVal("it", e, "s", vStr("str"), "i", vInt(1)), Root: "it", Steps: cs.Steps}
+			o := c08Resolve(one)
+			switch o.kind {
+			case "opaque":
+				return skipf("not modelled")
+			case "error":
+				expectErr = true
+			case "val":
+				s, ok := refPrintScalar(o.v)
+				if !ok {
+					return skipf("non-scalar leaf")
+				}
+				want.WriteString(refEscapeHTML(s))
+			}
+			want.WriteString(";")
+		}
+	}
+	probe := &c08Case{Root: "it", Steps: cs.Steps}
+	src := strings.Repeat("{% for it in hetero %}{{ "+probe.path()+" }};{% endfor %}", cs.Reps)
+	tpl, err := pongo2.NewSet("c08h", &memLoader{}).FromString(src)
+	if err != nil {
+		return fmt.Errorf("%q does not compile: %v", src, err)
+	}
+	for round := 0; round < 2; round++ {
+		got, xerr := tpl.Execute(BuildContext(ctx))
+		if expectErr {
+			if xerr == nil {
+				return fmt.Errorf("%s over %s: expected an execution error, rendered %q", src, descVal(ctx), got)
+			}
+			continue
+		}
+		if xerr != nil {
+			return fmt.Errorf("%s over %s: unexpected error %v (want %q)", src, descVal(ctx), xerr, want.String())
+		}
+		if got != want.String() {
+			return fmt.Errorf("%s over %s (render %d): got %q, each element resolved on its own gives %q", src, descVal(ctx), round+1, got, want.String())
+		}
+	}
+	kinds := map[string]bool{}
+	for _, e := range cs.Elems {
+		kinds[e.K+e.T] = true
+	}
+	if len(kinds) >= 2 {
+		r.NonTrivial(src + descVal(ctx))
+	}
+	return nil
+}
+
+var _ = register(&propSpec{
+	ID:   "C08.hetero",
+	Rule: "one parsed path ({{ it.Field }}, {{ it.In.A }}, {{ it.Greeting }}, {{ it.key }} ...) evaluated inside a loop over a []any holding values of DIFFERENT Go types with overlapping field / key / method names (two struct types with different layouts, by value and by pointer, nil pointer, string-keyed map, scalars), rendered twice: the output must be the concatenation of what each element yields when resolved on its own by the reference resolver. Non-trivial: >= 2 different element types.",
+	Gen: func(t *rapid.T) any {
+		cs := &c08Hetero{Reps: drawInt(t, 1, 2, "reps")}
+		for i := drawInt(t, 2, 4, "n"); i > 0; i-- {
+			switch drawInt(t, 0, 4, "ek") {
+			case 0:
+				cs.Elems = append(cs.Elems, genC08ZS(t, "zs", pick(t, "zk", []string{"value", "ptr", "nilptr"})))
+			case 1:
+				cs.Elems = append(cs.Elems, Val{K: "zt", T: pick(t, "ztk", []string{"value", "ptr"}), E: []Val{vStr("id7"), vStr(pick(t, "ztn", []string{"Tee", ""})), vInt(drawInt(t, 0, 9, "ztc"))}})
+			case 2:
+				m := Val{K: "mapSA"}
+				for _, k := range []string{"Name", "Count", "ID", "In", "Greeting"} {
+					if drawBool(t, "has"+k) {
+						m.Ks = append(m.Ks, vStr(k))
+						m.E = append(m.E, genC08Leaf(t, "mv"+k))
+					}
+				}
+				cs.Elems = append(cs.Elems, m)
+			case 3:
+				cs.Elems = append(cs.Elems, vNil())
+			default:
+				cs.Elems = append(cs.Elems, genC08Inner(t, "inner"))
+			}
+		}
+		switch drawInt(t, 0, 5, "path") {
+		case 0:
+			cs.Steps = []c08Step{{Kind: "field", Name: "Name"}}
+		case 1:
+			cs.Steps = []c08Step{{Kind: "field", Name: "Count"}}
+		case 2:
+			cs.Steps = []c08Step{{Kind: "field", Name: "ID"}}
+		case 3:
+			cs.Steps = []c08Step{{Kind: "field", Name: "In"}, {Kind: "field", Name: "A"}}
+		case 4:
+			cs.Steps = []c08Step{{Kind: "field", Name: "Greeting"}}
+		default:
+			cs.Steps = []c08Step{{Kind: "field", Name: "A"}}
+		}
+		return cs
+	},
+	New:   func() any { return &c08Hetero{} },
+	Check: checkC08Hetero,
+})
+
+func TestC08Hetero(t *testing.T) { runProp(t, "C08.hetero") }
